@@ -714,8 +714,11 @@ def common_meta(ctx):
                 "at least one function is visited with a non-zero decision; find cases: the same generated function "
                 "windows and symbol tables x 3 real ELF files (no profiling symbol, mcount, __fentry__) through "
                 "mcount_arch_find_module, non-trivial = a patching type is chosen; e2e cases: one generated program "
-                "(5 build variants incl. -mfentry -mnop-mcount with endbr64) x one -P/-U/-Z option set, plus a sweep of "
-                "-Z values around INT_MAX, 2^32, LONG_MAX, 0 and negative numbers")
+                "(10 build variants: gcc/clang/g++ patchable entries incl. =7,2, =5,2, non-PIE, C++ namespaces/overloads, "
+                "endbr64, -mfentry -mnop-mcount with and without endbr64; plus programs with a patchable shared library "
+                "linked at start-up or dlopen()ed, one case per module) x one -P/-U/-Z option set, plus a sweep of "
+                "-Z values around INT_MAX, 2^32, LONG_MAX, 0 and negative numbers; update cases also carry "
+                "patchable-section locations 1..4 bytes in front of a function")
     ctx.trusted = [
         "Coq 8.16.1 kernel incl. vm_compute (no native_compute); axioms as printed by Print Assumptions (none)",
         "hand-written model coq/theories/C14/Model.v of libmcount/dynamic.c (parse_pattern_list, match_pattern_list, "
@@ -727,7 +730,9 @@ def common_meta(ctx):
         "itself; a Gallina matcher is used and cross-checked for literal, '*' and '?' patterns",
         "correspondence harness harness/c/c14_harness.c (#includes libmcount/dynamic.c, links the scratch build's "
         "libmcount objects) + props/c14.py (generators, /proc/self/maps parsing, ELF/nm parsing for e2e)",
-        "gcc/clang used to build the generated e2e programs; the kernel's mprotect/mmap(MAP_FIXED_NOREPLACE)",
+        "gcc/clang/g++ used to build the generated e2e programs; the kernel's mprotect/mmap(MAP_FIXED_NOREPLACE); "
+        "the hand-written three-instruction machine of Model.v (NOP forms, call rel32, jmp *1(%rip)) and its "
+        "assumption that __fentry__ returns with the state preserved (property C01)",
     ]
     ctx.assume = [
         "mprotect on a module's text range succeeds (all pages mapped); its failure path (return -1) is not modelled",
